@@ -258,3 +258,13 @@ package codegen
 //@   at return assert [local] old(w.currentFunction != nil && int(handle) < len(w.currentFunction.Expressions)) && is(old(w.currentFunction.Expressions[int(handle)].Kind), ir.ExprLocalVariable) ==> result1 && result0 == ir.SpaceFunction
 //@   at return assert [pointer-argument] is(old(w.currentFunction.Expressions[int(handle)].Kind), ir.ExprFunctionArgument) && is(ty, ir.PointerType) ==> result1 && result0 == ty.(ir.PointerType).Space
 //@   at return assert [value-argument] is(old(w.currentFunction.Expressions[int(handle)].Kind), ir.ExprFunctionArgument) && !is(ty, ir.PointerType) ==> result1 && result0 == ir.SpaceFunction
+//
+// Operands of a binary operator: an inline scalar select is printed as the
+// ternary `c ? a : b`, which binds weaker than every binary operator, so it
+// needs parentheses exactly like an inline binary operand.
+//
+//@ func (*Writer).needsParens
+//@   mode bv
+//@   tags C04
+//@   at return assert [array-length] is(childExpr.Kind, ir.ExprArrayLength) ==> result
+//@   at return assert [scalar-select] is(childExpr.Kind, ir.ExprSelect) && !is(condType, ir.VectorType) ==> result
